@@ -243,6 +243,12 @@ def render2(ta: str, tb: str, junk: str, junk2: str, s1: int, s2: int, cr: int, 
     win.render_to_terminal(arrB, (cr, cc))
     ok = (not model.scrolls) and _grid_eq(model, _expected(rowsB, h2, w2)) and (model.r, model.c) == (cr, cc)
     ok = ok and model.cursor_visible == (not hide) and not model.unknown
+    if not ok:
+        return verdict(False)
+    # ---- a third render, of the empty array: whatever the row cache believes, the screen must end up blank
+    # (exposes cache entries that no longer describe the screen)
+    win.render_to_terminal([], (0, 0))
+    ok = (not model.scrolls) and _grid_eq(model, _expected([], h2, w2)) and (model.r, model.c) == (0, 0)
     return verdict(ok, len(specB) >= 1 and len(specA) >= 1)
 
 
@@ -327,5 +333,15 @@ def concrete(fn, params, args):
     st.feed(out.getvalue())
     call += "; render(%r, (%d, %d))" % (rowsB, cr, cc)
     ok = _pyte_grid(scr, h2, w2) == _pyte_expected(rowsB, h2, w2) and (scr.cursor.y, scr.cursor.x) == (cr, cc) and scr.cursor.hidden == hide
+    if ok:
+        out.seek(0)
+        out.truncate()
+        win.render_to_terminal([], (0, 0))
+        st.feed(out.getvalue())
+        call += "; render([], (0, 0))"
+        ok3 = _pyte_grid(scr, h2, w2) == _pyte_expected([], h2, w2) and (scr.cursor.y, scr.cursor.x) == (0, 0)
+        if not ok3:
+            return {"ok": False, "observed": "screen %r cursor %r" % (scr.display, (scr.cursor.y, scr.cursor.x)),
+                    "expected": "a blank screen, cursor (0, 0)", "call": call}
     return {"ok": ok, "observed": "screen %r cursor %r hidden %r" % (scr.display, (scr.cursor.y, scr.cursor.x), scr.cursor.hidden),
             "expected": "screen %r cursor %r hidden %r" % (["".join(c for c, _, _ in line) for line in _pyte_expected(rowsB, h2, w2)], (cr, cc), hide), "call": call}
